@@ -1,2 +1,3 @@
 pub mod dewey;
 pub mod plist;
+pub mod pattern;
